@@ -390,9 +390,13 @@ def defect (vk : VK F) (cs : List F) (z : List F) (vs : List F) (π : Proof F) (
   | .error _ => 0
   | .ok a => defectCombined vk a.1 a.2.1 z π
 
-/-- `MarlinPST13::check`; `vk.beta_h[j]` / `point[j]` out of range is a panic. -/
+/-- `MarlinPST13::check`: a proof whose witness list has not exactly `vk.num_vars` elements is
+refused (`IncorrectInputLength`) before anything is squeezed; `vk.beta_h[j]` / `point[j]` out of
+range is a panic. -/
 def check (vk : VK F) (cs : List F) (z : List F) (vs : List F) (π : Proof F) (ξs : List F) :
     Except Err Bool :=
+  if π.w.length ≠ vk.numVars then .error .incorrectInputLength
+  else
   match accumulate 0 0 cs vs ξs with
   | .error e => .error e
   | .ok a =>
@@ -428,6 +432,7 @@ def twSum (betaH : List F) : Nat → List F → F
 def batchDefect (vk : VK F) (cs : List F) (zs : List (List F)) (vs : List F) (πs : List (Proof F))
     (rs : List F) : Except Err F :=
   if πs.length ≠ zs.length then .error .abort      -- assert_eq!(proof.len(), combined_queries.len())
+  else if πs.any (fun π => decide (π.w.length ≠ vk.numVars)) then .error .incorrectInputLength
   else if vk.betaH.length < vk.numVars then .error .abort
   else
     match batchAcc vk.numVars cs zs vs πs rs 1 (0, List.replicate vk.numVars 0, 0, 0) with
